@@ -366,9 +366,10 @@ def run(tier, seed):
     names = QUICK if tier == 'quick' else list(HARNESSES)
     tasks = [(n, 2, False, 4000) for n in names]
     if tier == 'thorough':
-        tasks += [(n, 2, True, 6000) for n in names]
-        tasks += [(n, 3, False, 6000) for n in names if len(HARNESSES[n]) == 2]
-        tasks += [(n, 2, False, 6000, True) for n in names]
+        # line-level points cost ~0.1-0.8 s per execution: capped, and not for the 4-thread harness
+        tasks += [(n, 2, True, 2500) for n in names if len(HARNESSES[n]) <= 3]
+        tasks += [(n, 3, False, 4000) for n in names if len(HARNESSES[n]) == 2]
+        tasks += [(n, 2, False, 3000, True) for n in names]
     hs = []
     flagged = []
     for part in pmap(_worker, tasks):
